@@ -275,6 +275,38 @@ impl Prop for C07 {
                 );
             }
         }
+        // (3) "late loop": the blocking loop again, but every iteration that is not blocked covers
+        // 2, 5 or 40 ms at once (tick_ms(n)): same keys at the same ticks
+        // (on-idle counts idle time once per loop iteration: a late loop fires it late by less than
+        // the iteration's length, which is the loop's own resolution; a dynamic macro replayed with its recorded delays
+        // re-times itself by what one iteration covered: such configurations are left out here, C01 / C19 run them)
+        if !o.failed() && case.seed % 3 == 0 && !case.cfg.contains("on-idle") && !case.cfg.contains("dynamic-macro") {
+            let k = [2u64, 5, 40][((case.seed / 3) % 3) as usize];
+            let mut c = match Stepper::new_filtered(&case.cfg, &case.files, Mode::Blocking) {
+                Ok(s) => s,
+                Err(_) => return o,
+            };
+            c.batch = k;
+            c.run_ops(&case.ops);
+            c.gap(tail);
+            c.finish();
+            let tc = std::mem::take(&mut c.trace);
+            o.count("late-loop.runs", 1);
+            let n = tb.outs.len().min(tc.outs.len());
+            let mut diff: Option<usize> = (0..n).find(|i| {
+                let (x, y) = (&tb.outs[*i], &tc.outs[*i]);
+                x.kind != y.kind || x.key != y.key || x.in_idx != y.in_idx || x.dt != y.dt
+            });
+            if diff.is_none() && tb.outs.len() != tc.outs.len() {
+                diff = Some(n);
+            }
+            if let Some(i) = diff {
+                let fmt = |t: &Vec<OutEv>| -> String { t.iter().skip(i.saturating_sub(2)).take(6).map(|e| format!("{}(in#{}+{})", outs_short(&[e.clone()]), e.in_idx as i64, e.dt)).collect::<Vec<_>>().join(" ") };
+                let mut t2 = tags.clone();
+                t2.push("late-loop".into());
+                o.set_fail("C07:late-loop-divergence", format!("output #{i} differs with {k} ms per loop iteration. 1 ms: [{}] {k} ms: [{}]", fmt(&tb.outs), fmt(&tc.outs)), t2);
+            }
+        }
         if want_sample {
             o.sample = Some(sample_json(case, &ta.outs, json!({"ticking_ticks": ta.ticks, "blocking_ticks": tb.ticks, "skipped_ms": tb.skipped_ms, "blockable_points": ta.blockable_points})));
         }
